@@ -26,7 +26,7 @@ class C46(Check):
     pid = "C46"
     exe = "driver_nt"
     builds = [("main", ("driver_nt",))]
-    timeout = 40.0
+    timeout = 60.0
     case_timeout = 120
     rule = ("case = batch of integer matrices A (p x q). All 1x2, 1x3 and 2x3 matrices with entries -2..2 are enumerated "
             "(1x2 also -4..4); Hypothesis adds 1-3 x 2-5 matrices with entries -4..4. The basis returned by "
@@ -59,7 +59,7 @@ class C46(Check):
             yield from batches(mats(2, 2, -4, 4), 27)
 
     def strategy(self, tier):
-        return st.fixed_dictionaries({"As": st.lists(matrix(), min_size=1, max_size=4)})
+        return st.fixed_dictionaries({"As": st.lists(matrix(), min_size=1, max_size=2)})
 
     def judge(self, case):
         todo = []
